@@ -16,7 +16,7 @@ RULE = ("case 'exp' = (matrix, ordered pair of writers (w1, w2) out of arxml, cs
         "Matrices include long names (> 32 characters), free signals, cycle times, duplicate frame names, receiver lists not yet "
         "propagated to the frames, multiplex groups with many values, attributes with definitions. quick: every ordered pair on 1 "
         "matrix per shard + random pairs; thorough: every ordered pair on 20 matrices. case 'seeds' = the same exports in "
-        "subprocesses under 6 (thorough: 12) values of PYTHONHASHSEED, always including a frame with 15 multiplex groups. One matrix in seven has a frame whose length was never set (0) although it has signals. Non-trivial = every distinct case (each exercises >= 1 writer).")
+        "The process state decoding depends on (decimal context) is compared before and after every export; comments over two lines occur. subprocesses under 6 (thorough: 12) values of PYTHONHASHSEED, always including a frame with 15 multiplex groups. One matrix in seven has a frame whose length was never set (0) although it has signals. Non-trivial = every distinct case (each exercises >= 1 writer).")
 EXHAUSTIVE = {"quick": False, "thorough": False}
 PARTIAL = ["the writers' footprint on their argument is recorded in the model by hand (copiesFirst/normalise); that the record is complete "
            "is established only by this correspondence check - the theorems carry least here",
@@ -34,9 +34,9 @@ WKEYS = sorted(WRITERS)
 
 
 def gen_desc(rng, many_groups=False, common_prefix=False):
-    d = M.gen_matrix(rng, {"floats": False, "limits": True, "cycle": True, "maxframes": 4})
+    d = M.gen_matrix(rng, {"floats": False, "limits": True, "cycle": True, "maxframes": 4, "multiline_comments": True})
     while common_prefix and len(d["frames"]) < 2:
-        d = M.gen_matrix(rng, {"floats": False, "limits": True, "cycle": True, "maxframes": 4})
+        d = M.gen_matrix(rng, {"floats": False, "limits": True, "cycle": True, "maxframes": 4, "multiline_comments": True})
     d["opts"] = {"update": rng.random() < 0.5}
     fr = d["frames"]
     if rng.random() < 0.4 and fr:
@@ -135,6 +135,13 @@ def decode_all(db):
     return out
 
 
+def process_state():
+    """what decoding depends on besides the matrix: the arithmetic context of the decimal module"""
+    import decimal
+    ctx = decimal.getcontext()
+    return [ctx.prec, ctx.rounding, ctx.Emin, ctx.Emax, ctx.capitals, ctx.clamp, sorted(str(t) for t, on in ctx.traps.items() if on)]
+
+
 def observe(case):
     c = case["c"]
     if case["op"] == "seeds":
@@ -153,14 +160,18 @@ def observe(case):
     db = build(c["m"])
     before = M.normal_form(db, "all")
     dec_before = decode_all(db)
+    ctx_before = process_state()
     b1 = M.export_bytes(db, f1, **o1)
     after = M.normal_form(db, "all")
     dec_after = decode_all(db)
+    ctx_after = process_state()
     b2 = M.export_bytes(db, f2, **o2)
     fresh = build(c["m"])
     b2_fresh = M.export_bytes(fresh, f2, **o2)
     b1_again = M.export_bytes(build(c["m"]), f1, **o1)
-    r = {"unchanged": before == after, "second_same": b2 == b2_fresh, "twice_same": b1 == b1_again, "decode_same": dec_before == dec_after}
+    r = {"unchanged": before == after, "second_same": b2 == b2_fresh, "twice_same": b1 == b1_again, "decode_same": dec_before == dec_after and ctx_before == ctx_after}
+    if ctx_before != ctx_after:
+        r["process_state"] = [str(ctx_before), str(ctx_after)]
     if not r["unchanged"]:
         r["diff"] = [k for k in before if before[k] != after[k]]
     return r
